@@ -629,6 +629,9 @@ func (m *RWMutexState) Lock() {
 		m.writer = true
 		return
 	}
+	// the announcement "a writer is waiting" (which blocks new readers) is itself an ordered step:
+	// a scheduling point before it lets a reader that is about to RLock win the race
+	s.park(&Op{Kind: OpAtomic})
 	m.wwaiting++
 	s.park(&Op{Kind: OpLock, Obj: m})
 }
